@@ -50,7 +50,7 @@ class Names:
         if st == 0:
             return DEFAULTS[ty]
         if st == 1:
-            if self.kindname == "sqlalchemy":
+            if (self.kindname or "").startswith("sqlalchemy"):
                 return {"int": 0, "str": "", "any": None}[ty]          # mapped_column(default=None) means "no default" in SQLAlchemy
             return {"int": None, "str": "", "any": None}[ty]
         return {"int": 0, "str": "", "any": []}[ty] if ty != "any" else []
@@ -64,7 +64,7 @@ class Names:
         if st == 0:
             return {"int": 0, "str": "", "any": None}[ty]
         if st == 1:
-            if self.kindname == "sqlalchemy":
+            if (self.kindname or "").startswith("sqlalchemy"):
                 return {"int": None, "str": None, "any": []}[ty]
             return {"int": 0, "str": None, "any": []}[ty]
         return None
